@@ -175,21 +175,22 @@ Print Assumptions C08_liveness_required_aborts.
 
 (* ---- liveness against servers that also reject the nick (Live3.v) ----
    The bot side is stepN = the registration machine + the nick generator of
-   Irc._getNextNick (alternates, then the configured nick itself, then random
-   variants); gameN is the lock-step game on it.  The server (conformantN K):
+   Irc._getNextNick (the configured alternates, then random variants, always a
+   new nick); gameN is the lock-step game on it.  The server (conformantN K):
    as before, and in addition, at the start of any response before the welcome
    burst it may reject the current nick with 432/433/437 (at most K times in
    all); while the nick is rejected it withholds the welcome burst; a
    replacement NICK is rejected again or accepted, and the withheld welcome
    burst follows the accepted one.  Proved: for every PLAIN/EXTERNAL
-   configuration, every such strategy with K <= the number of configured nick
-   alternates na, the bot is CONNECTED or has dropped the connection within
-   2 * |mechanisms| + 3 + K rounds.  (Measure: rounds of the phase + rejections
+   configuration, every number na of configured nick alternates and every such
+   strategy, for EVERY K, the bot is CONNECTED or has dropped the connection
+   within 2 * |mechanisms| + 3 + K rounds.  (Measure: rounds of the phase + rejections
    left; a rejection is answered by a NICK in whatever fsm state -- INIT_SASL
    included -- and changes nothing else: after_only_376 / step_rejection.)
-   Beyond na rejections it is FALSE for the pinned code: finding C08.F26 below. *)
+   (Before the fix of finding C08.F26 this needed K <= na and was refuted for
+   K = na + 1: the first fallback candidate was the rejected nick itself.) *)
 Theorem C08_liveness_nick :
-  forall c na K sigma, cfg_ok c -> conformantN K sigma -> (K <= na)%nat ->
+  forall c na K sigma, cfg_ok c -> conformantN K sigma ->
   exists k, (k <= 2 * length (c_mechs c) + 3 + K)%nat /\ finishedN (gameN c na sigma k).
 Proof. exact liveness_nick. Qed.
 Print Assumptions C08_liveness_nick.
@@ -208,15 +209,13 @@ Theorem C08_liveness_nick_witnesses :
 Proof. exact liveness_nick_witnesses. Qed.
 Print Assumptions C08_liveness_nick_witnesses.
 
-(* refuted beyond the alternates (finding C08.F26): 2 alternates, 3 rejections: the third candidate is the configured
-   nick itself, do43x raises and sends nothing; the bot waits for the welcome burst, the server for a NICK, for ever *)
-Theorem C08_liveness_nick_refuted :
-  let sigma := strategyN srv_all [0%nat] 3 (repeat 1%N 40) in
-  let g := gameN (cfg_plain true) 2 sigma 4 in
-  fsm (fst (fst g)) = WAIT_MOTD /\ snd (fst g) = Nk 0 true /\ existsb (existsb is_abort) (snd g) = false /\ sigma (snd g) = [] /\
-  gameN (cfg_plain true) 2 sigma 8 = (fst g, [] :: [] :: [] :: [] :: snd g).
-Proof. exact liveness_nick_stuck. Qed.
-Print Assumptions C08_liveness_nick_refuted.
+(* the old witness of finding C08.F26 (fixed): 2 alternates, 3 rejections from the start -> CONNECTED;
+   and 5 rejections in a row once the welcome burst is due *)
+Theorem C08_liveness_nick_beyond_alternates :
+  connectedN_in (cfg_plain true) 2 (strategyN srv_all [0%nat] 3 (repeat 1%N 40)) 5 = true /\
+  connectedN_in cfg_nosasl 2 (strategyN srv_all [2%nat] 5 (repeat 1%N 60)) 8 = true.
+Proof. exact liveness_nick_beyond_alternates. Qed.
+Print Assumptions C08_liveness_nick_beyond_alternates.
 
 (* After a reset the capability and SASL state is the initial one ... *)
 Theorem C08_reset_fresh :
